@@ -47,6 +47,15 @@ the engine's normaliser leaves after splicing a helper) counts as emissions of t
 second complete loop over the tasks; `substitute(**mapping)` / `substitute(dict(..))`; task domains spelled as an unfiltered
 comprehension.  A task list cached on the chart object by __init__ (`self.x = wbs.tasks`) and rendered later is refuted (stale).
 
+Round 4: the state slot may be a local assigned in an if/elif chain (or default + overwrite) with one `return state` - every
+path's last assignment is a case; `parent` through nested conditional expressions (guard clauses of an inlined helper);
+`entry.update(D)` with D a dict filled under `k not in entry` (helper spliced) or a dict comprehension with that filter;
+_repr_html_ through a shared helper of another package module (its constant / `escape` import are looked up there);
+round()/float() around the progress formula.  New refutations: `sep.join(lines)` with a newline separator is modelled as
+"every line + sep, minus the last sep" (`_minus_trailing_separator` marker) - text appended right after it that does not start
+with a newline is glued onto the last line; a `.format` / `%` template that already contains a task name (name re-read as a
+format template).
+
 Engine limitations worked around here (helpers below, nothing under sa/ was changed): string-building normalisation (`parts`),
 inlining of multi-statement single-return helpers (`deep`), path enumeration with event counts (`paths`, DESIGN 3.7 is not in
 sa/), structural loop nesting (`loop_chains`), accumulator recognition (`Acc`), a propositional evaluator for branch conditions,
@@ -634,6 +643,23 @@ def _with_sep(v: ast.AST, sep: str) -> ast.AST:
     return v if not sep else ast.BinOp(left=v, op=ast.Add(), right=ast.Constant(value=sep))
 
 
+_MARK = '_minus_trailing_separator'
+
+
+def _marker(sep: str) -> ast.AST:
+    """stands for "the text so far lacks its last separator": `sep.join(xs)` is modelled as every element followed by sep"""
+    return ast.Call(func=_name(_MARK), args=[ast.Constant(value=sep)], keywords=[])
+
+
+def is_marker(v: ast.AST) -> bool:
+    return isinstance(v, ast.Call) and isinstance(v.func, ast.Name) and v.func.id == _MARK
+
+
+def _ends_line(v: ast.AST) -> bool:
+    ps = parts(v)
+    return bool(ps) and ps[-1][0] == 'lit' and ps[-1][1].endswith('\n')
+
+
 class Canon:
     """Rewrites a copy of a text-building function into the shape the rule reads: one string accumulator filled by `+=`
     statements inside explicit loops.  Only behaviour-preserving steps (up to a trailing separator of `sep.join`):
@@ -644,6 +670,7 @@ class Canon:
       acc += ''.join([E for x in X if c]) -> for x in X: if c: acc += E                 (also generator expressions and map(fn, X))
       xs = []; xs.append(v); xs.extend([..]); acc += ''.join(xs)  ->  xs = ''; xs += v; ...; acc += xs
 
+    `sep.join` with a non-empty separator is written as element + sep, followed by a marker for the missing last separator.
     Nothing is decided here.  A function that needs none of the steps is returned unchanged (same object)."""
 
     def __init__(self, ctx, f: Func):
@@ -820,6 +847,8 @@ class Canon:
                                    generators=[ast.comprehension(target=_name(x, True), iter=arg.args[1], ifs=[], is_async=0)])
         if j and isinstance(arg, (ast.ListComp, ast.GeneratorExp)):
             body = self.comp_loops(arg, lambda elt: self.emit(a, False, _with_sep(elt, sep), st), st)
+            if sep and not _ends_line(arg.elt):
+                body.append(self.emit(a, False, _marker(sep), st))
             return ([self.emit(a, True, ast.Constant(value=''), st)] if init else []) + body
         h = self.spliceable(arg)
         if h is not None:
@@ -901,6 +930,17 @@ class Canon:
                             self.dead.add(id(a))
                         else:
                             new = blk[0] + [append_to(x, st)(blk[1])]
+            if new is None and isinstance(st, ast.Expr) and isinstance(st.value, ast.Call) and isinstance(st.value.func, ast.Attribute) and \
+                    isinstance(st.value.func.value, ast.Name) and st.value.func.attr == 'update' and len(st.value.args) == 1 and \
+                    not st.value.keywords and id(st.value.args[0]) not in self.dead:
+                a = st.value.args[0]                      # entry.update(self.h(..)): the statements of h, entry.update(<its value>)
+                h = self.spliceable(a)
+                if h is not None:
+                    blk = self.splice(h, a, st)
+                    if blk is None:
+                        self.dead.add(id(a))
+                    else:
+                        new = blk[0] + [ast.copy_location(ast.Expr(value=ast.Call(func=st.value.func, args=[blk[1]], keywords=[])), st)]
             if new is None:
                 out.append(st)
             else:
@@ -952,6 +992,7 @@ class Canon:
         plan: Dict[int, List[ast.stmt]] = {}
         ok_names = {id(use.args[0])}
         inits = 0
+        elems: List[ast.AST] = []
         for st in walk_no_nested(self.node):
             if isinstance(st, (ast.Assign, ast.AnnAssign)):
                 tg = st.targets[0] if isinstance(st, ast.Assign) and len(st.targets) == 1 else getattr(st, 'target', None)
@@ -964,6 +1005,7 @@ class Canon:
                     inits += 1
                     txt: ast.AST = ast.Constant(value='')
                     for el in v.elts:
+                        elems.append(el)
                         piece = _with_sep(el, sep)
                         txt = piece if (isinstance(txt, ast.Constant) and txt.value == '') else ast.BinOp(left=txt, op=ast.Add(), right=piece)
                     plan[id(st)] = [self.emit(x, True, txt, st)]
@@ -972,8 +1014,10 @@ class Canon:
                     isinstance(st.value.func.value, ast.Name) and st.value.func.value.id == x:
                 c = st.value
                 if c.func.attr == 'append' and len(c.args) == 1 and not c.keywords:
+                    elems.append(c.args[0])
                     plan[id(st)] = [self.emit(x, False, _with_sep(c.args[0], sep), st)]
                 elif c.func.attr == 'extend' and len(c.args) == 1 and not c.keywords:
+                    elems.append(getattr(c.args[0], 'elt', c.args[0]))
                     new = self.extend_text(x, sep, c.args[0], st)
                     if new is None:
                         return False
@@ -984,6 +1028,7 @@ class Canon:
             elif isinstance(st, ast.AugAssign) and isinstance(st.target, ast.Name) and st.target.id == x:
                 if not isinstance(st.op, ast.Add):
                     return False
+                elems.append(getattr(st.value, 'elt', st.value))
                 new = self.extend_text(x, sep, st.value, st)
                 if new is None:
                     return False
@@ -1011,9 +1056,13 @@ class Canon:
             return out
         self.node.body = rec(self.node.body)
 
+        marked = bool(sep) and not all(_ends_line(el) for el in elems)
+
         class T(ast.NodeTransformer):
             def visit_Call(self, n):
                 if n is use:
+                    if marked:
+                        return ast.copy_location(ast.BinOp(left=_name(x), op=ast.Add(), right=_marker(sep)), n)
                     return ast.copy_location(_name(x), n)
                 return self.generic_visit(n)
         T().visit(self.node)
@@ -1356,6 +1405,46 @@ def check_templates(ctx, o):
 
 
 # ------------------------------------------------------------------------------------------------------- escape
+def _module_consts(m) -> Dict[str, ast.AST]:
+    out = {}
+    for st in m.tree.body:
+        if isinstance(st, ast.Assign) and len(st.targets) == 1 and isinstance(st.targets[0], ast.Name):
+            out[st.targets[0].id] = st.value if st.targets[0].id not in out else None
+        elif isinstance(st, ast.AnnAssign) and isinstance(st.target, ast.Name) and st.value is not None:
+            out[st.target.id] = st.value if st.target.id not in out else None
+    return out
+
+
+def foreign_const(ctx, f: Func, name: str) -> Optional[ast.AST]:
+    """value of a module-level string constant that is not bound in f's own module: the name arrived with a helper of another
+    package module that the normaliser inlined here; it is read from the one module that defines it"""
+    own = _module_consts(f.module)
+    if name in own or name in f.module.imports:
+        v = own.get(name)
+        if v is None and name in f.module.imports:
+            org = f.module.imports[name]
+            if org.startswith('pjplan.'):
+                for m in ctx.prog.modules.values():
+                    if org == ('pjplan.' + name if m.name == '__init__' else f'pjplan.{m.name}.{name}'):
+                        v = _module_consts(m).get(name)
+        return v if v is not None and const_str(v) is not None else None
+    found = [c[name] for c in (_module_consts(m) for m in ctx.prog.modules.values()) if name in c]
+    if len(found) == 1 and found[0] is not None and const_str(found[0]) is not None:
+        return found[0]
+    return None
+
+
+def name_origin(ctx, f: Func, name: str) -> Optional[str]:
+    """dotted origin of an imported name; for a name that f's module does not bind at all (it arrived with an inlined helper
+    of another package module) the origin all importing package modules agree on"""
+    if name in f.module.imports:
+        return f.module.imports[name]
+    if name in _module_consts(f.module) or ctx.prog.module_func(f.module.name, name) is not None:
+        return None
+    origins = {m.imports[name] for m in ctx.prog.modules.values() if name in m.imports}
+    return origins.pop() if len(origins) == 1 else None
+
+
 def check_escape(ctx, o):
     for R in RENDERERS:
         f = ctx.prog.func(qual(R, '_repr_html_'))
@@ -1366,6 +1455,16 @@ def check_escape(ctx, o):
             continue
         r = rets[0]
         e = Expander(ctx.prog, f, ctx.typer, inline=False).expand(r.value)
+        local = {d.var for d in flow_of(f).defs}
+
+        class K(ast.NodeTransformer):
+            def visit_Name(self, n):
+                if isinstance(n.ctx, ast.Load) and n.id not in local:
+                    v = foreign_const(ctx, f, n.id)
+                    if v is not None:
+                        return copy.deepcopy(v)
+                return n
+        e = K().visit(copy.deepcopy(e))
         ps = parts(e)
         text = lits(ps)
         if '<iframe' not in text or 'srcdoc=' not in text:
@@ -1380,10 +1479,10 @@ def check_escape(ctx, o):
             o.undecided(f, r, r, "srcdoc attribute is not closed right after the document")
             continue
         v = ps[idx + 1][1]
-        esc_ok = f.module.imports.get('escape') == 'html.escape'
+        esc_ok = name_origin(ctx, f, 'escape') == 'html.escape'
         m = None
         if isinstance(v, ast.Call) and v.args and ((esc_ok and match("escape", v.func)) or
-                                                   (f.module.imports.get('html') == 'html' and match("html.escape", v.func))):
+                                                   (name_origin(ctx, f, 'html') == 'html' and match("html.escape", v.func))):
             m = {'d': v.args[0]}
 
         def is_doc(x):
@@ -1829,10 +1928,29 @@ def milestone_cases(ctx, f: Func, state_role):
         rets = [r for r in walk_no_nested(h.node) if isinstance(r, ast.Return)]
         if not rets:
             raise Und(h, h.node, h.name, "state helper without return")
+        hfl = flow_of(h)
         for r in rets:
             conds = facts.node_conditions(ctx.prog, h, r, ctx.typer)
+            tname = ast.Name(id=tparam, ctx=ast.Load())
+            # `state = 'x,'` in the branches of an if/elif chain and one `return state`: every reaching assignment is a case
+            if isinstance(r.value, ast.Name) and cfg_of(h).node_of(r) is not None:
+                ds = hfl.reaching(r.value.id, cfg_of(h).node_of(r))
+                if len(ds) > 1 and len(rets) == 1 and h.body[-1] is r and \
+                        all(d.kind == 'assign' and d.value is not None and d.stmt is not None for d in ds):
+                    by_stmt = {id(d.stmt): d for d in ds}
+                    ex = Expander(ctx.prog, h, ctx.typer)
+                    hcfg = cfg_of(h)
+                    for p_ in paths(h.body, {k_: 'def' for k_ in by_stmt}):
+                        if p_.exit == 'raise':
+                            continue
+                        if p_.count('opaque-loop', 'opaque') or not p_.events:
+                            raise Und(h, r, r, f"the state `{r.value.id}` is assigned inside a loop / try block")
+                        d = by_stmt[id(p_.events[-1][1])]            # the assignment that reaches the return on this path
+                        pc = [c_ for t_, pol_ in p_.conds for c_ in facts.split_conj(ex.expand(t_, hcfg.node_containing(t_)), pol_)]
+                        flat(deep(ctx, h, d.value, d.node), pc, d.stmt, h, tname)
+                    continue
             val = deep(ctx, h, r.value) if r.value is not None else ast.Constant(value=None)
-            flat(val, list(conds), r, h, ast.Name(id=tparam, ctx=ast.Load()))
+            flat(val, list(conds), r, h, tname)
         # falling off the end returns None
         if any(p.exit == 'fall' for p in paths(h.body, {})):
             out.append(([], ast.Constant(value=None), h.node, h, ast.Name(id=tparam, ctx=ast.Load())))
@@ -1864,6 +1982,7 @@ def gantt_formats(ctx, o):
         else:
             o.refute(f, f.node, '__src: no task line', "no task line is emitted")
         return
+    check_joined_lines(o, f, G.em, 'line')
     fmts = []
     for e in G.lines:
         roles = [r for r in e.roles if r[0] != 'lit']
@@ -1995,9 +2114,83 @@ def gantt_formats(ctx, o):
             o.site(f, e.stmt, f"dateFormat {df} == strftime {tr}")
 
 
+def check_joined_lines(o, f: Func, em: List['Emission'], what: str):
+    """lines joined with a newline separator have no newline after the last one: text appended next must start a new line"""
+    cfg, blocks = cfg_of(f), _blocks(f.node)
+    for i, e in enumerate(em):
+        idx = next((k for k, (kind, v) in enumerate(e.parts) if kind == 'val' and is_marker(v)), None)
+        if idx is None:
+            continue
+        sep = e.parts[idx][1].args[0].value
+        if '\n' not in sep:
+            continue
+        followers = [(e, e.parts[idx + 1:])] + [(e2, e2.parts) for e2 in em[i + 1:]]
+        for e2, ps in followers:
+            ps = [p_ for p_ in ps if not (p_[0] == 'val' and is_marker(p_[1]))]
+            if not ps:
+                continue
+            if e2.stmt is not e.stmt:
+                a, b = cfg.node_of(e.stmt), cfg.node_of(e2.stmt)
+                if a is None or b is None or not cfg.can_reach(a, b):
+                    continue
+            if not (ps[0][0] == 'lit' and ps[0][1].startswith('\n')):
+                nxt = src(e2.stmt)[:60] if e2.stmt is not e.stmt else src(ps[0][1])[:40] if ps[0][0] == 'val' else repr(ps[0][1][:30])
+                o.refute(f, e.stmt, f"{what}: {sep!r}.join(..) then {nxt}",
+                         f"the {what}s are joined with {sep!r}, which puts the line break only *between* them: the last {what} is "
+                         f"not terminated, and the text appended next (`{nxt}`) is glued onto it (expected every line to carry its "
+                         f"own newline, or a newline before the following text)")
+                break
+            if e2.stmt is e.stmt or blocks.get(id(e2.stmt), (None,))[0] is blocks.get(id(e.stmt), (0,))[0]:
+                break                          # a line break always follows
+
+
+def template_sinks(ctx, o, f: Func, what: str) -> bool:
+    """`X.format(..)` / `X % ..` whose template X is assembled from a task name: the name is re-read as a format template"""
+    bad = False
+    seen, todo = set(), [f]
+    while todo:
+        g = todo.pop()
+        if g.qual in seen:
+            continue
+        seen.add(g.qual)
+        fl = flow_of(g)
+        for n in walk_no_nested(g.node, include_lambdas=True):
+            if isinstance(n, ast.Call):
+                h = helper_of(ctx, g, n)
+                if h is not None:
+                    todo.append(h)
+            tpl = None
+            if isinstance(n, ast.Call) and isinstance(n.func, ast.Attribute) and n.func.attr in ('format', 'format_map'):
+                tpl = n.func.value
+            elif isinstance(n, ast.BinOp) and isinstance(n.op, ast.Mod) and isinstance(n.left, (ast.Name, ast.JoinedStr)) and \
+                    facts.const_num(n.right) is None:
+                tpl = n.left
+            if tpl is None or const_str(tpl) is not None:
+                continue
+            srcs = [tpl]
+            if isinstance(tpl, ast.Name):
+                srcs = [d.value if d.kind == 'assign' else d.stmt.value for d in fl.defs_of(tpl.id)
+                        if d.kind in ('assign', 'aug') and (d.value is not None or d.stmt is not None)]
+            for v in srcs:
+                if v is None:
+                    continue
+                e = deep(ctx, g, v, fl.node_of_expr(v))
+                nm = next((x for x in ast.walk(e) if isinstance(x, ast.Attribute) and x.attr == 'name'), None)
+                if nm is not None:
+                    o.refute(g, n, f"{what}: {src(nm)} inside the template of {src(n)[:40]}",
+                             f"`{src(n)[:70]}` formats a template that already contains `{src(nm)}` (`{src(v)[:60]}`): braces / `%` in "
+                             f"the task name are read as replacement fields, so the name can drop or alter the line or make "
+                             f"rendering raise (expected the name to be passed as an argument of a constant template)")
+                    bad = True
+                    break
+    return bad
+
+
 def gantt_sinks(ctx, o):
     G = Gantt(ctx)
     f = G.f
+    if template_sinks(ctx, o, f, 'gantt line'):
+        return
     for e in G.lines:
         for role, t, chain in e.roles:
             if role != 'name':
@@ -2047,10 +2240,13 @@ class Edge:
 
 def check_network(ctx, o, osk):
     f = canonical(ctx, ctx.prog.func(qual(NET, '__src')))
+    template_sinks(ctx, osk, f, 'network edge')
     n0 = _bad(o)
     w = wbs_attr(ctx, NET)
     acc = Acc(ctx, f)
     em = emissions(ctx, f, acc, lambda n: isinstance(n, ast.Constant) and isinstance(n.value, str) and '-->' in n.value)
+    check_joined_lines(o, f, em, 'edge line')
+    n0 = _bad(o)
     edges = [Edge(e, f) for e in em if '-->' in e.text]
     if not edges:
         blind = next((x for e in em for x in opaque_values(ctx, f, e)), None)
@@ -2787,7 +2983,22 @@ def check_dhtmlx(ctx, O):
             for n in [x for b in L.body for x in walk_no_nested(b)]:
                 if isinstance(n, ast.Call) and isinstance(n.func, ast.Attribute) and isinstance(n.func.value, ast.Name) and \
                         n.func.value.id == ev and n.func.attr in ('update', 'setdefault', 'pop', 'clear', '__setitem__'):
-                    if n.func.attr != 'setdefault':
+                    if n.func.attr == 'update' and len(n.args) == 1 and not n.keywords and isinstance(n.args[0], ast.Name):
+                        check_update(ctx, oj, f, L, n, ev, n.args[0].id, need)
+                    elif n.func.attr == 'update' and len(n.args) == 1 and not n.keywords and isinstance(n.args[0], ast.DictComp):
+                        dc = n.args[0]
+                        kc = const_str(dc.key)
+                        ks = src(dc.key)
+                        conds = [c_ for g_ in dc.generators for t_ in g_.ifs for c_ in facts.split_conj(t_, True)]
+                        if kc is not None:
+                            if kc in need:
+                                oj.refute(f, n, n, f"`{src(n)[:60]}` overwrites the entry's `{kc}` after it was computed")
+                        elif any((match(f"{ks} not in {ev}", a) and pol) or (match(f"{ks} in {ev}", a) and not pol) for a, pol in conds):
+                            oj.site(f, n, f"custom attributes are copied only under `{ks} not in {ev}`: id/text/dates/parent/progress are kept")
+                        else:
+                            oj.refute(f, n, n, f"`{src(n)[:70]}` does not filter its keys with `{ks} not in {ev}`: a task attribute named "
+                                               f"id, text, parent, progress, start_date or end_date replaces the computed entry field")
+                    elif n.func.attr != 'setdefault':
                         oj.undecided(f, n, n, f"the entry is modified by `{src(n)[:60]}`")
                     continue
                 if not isinstance(n, (ast.Assign, ast.AugAssign)):
@@ -2809,6 +3020,48 @@ def check_dhtmlx(ctx, O):
                                            f"parent, progress, start_date or end_date replaces the computed entry field")
         check_parent(ctx, oj, f, st, ex['parent'], t, w)
         check_progress(ctx, oj, f, st, it['progress'], at, t)
+
+
+def check_update(ctx, oj, f: Func, L, call: ast.Call, ev: str, D: str, need):
+    """`entry.update(D)`: D is a dict created empty in the task loop and filled only by `D[k] = ..` under `k not in entry`"""
+    inits, stores, other = [], [], []
+    used = {id(call.args[0])}
+    for n in [x for b in L.body for x in walk_no_nested(b)]:
+        if isinstance(n, ast.Assign) and len(n.targets) == 1:
+            tg = n.targets[0]
+            if isinstance(tg, ast.Name) and tg.id == D:
+                inits.append(n)
+                used.add(id(tg))
+            elif isinstance(tg, ast.Subscript) and isinstance(tg.value, ast.Name) and tg.value.id == D:
+                stores.append((n, tg))
+                used.add(id(tg.value))
+    other = [n for n in walk_no_nested(f.node, include_lambdas=True) if isinstance(n, ast.Name) and n.id == D and id(n) not in used]
+    if other or len(inits) != 1 or not (match("{}", inits[0].value) or match("dict()", inits[0].value)):
+        oj.undecided(f, call, call, f"the entry is modified by `{src(call)[:60]}` and `{D}` is not a dict created empty and filled by "
+                                    f"`{D}[key] = ..` only")
+        return
+    # the entry itself must not change while D is collected (its keys are the reserved ones)
+    for n in [x for b in L.body for x in walk_no_nested(b)]:
+        if isinstance(n, ast.Call) and isinstance(n.func, ast.Attribute) and isinstance(n.func.value, ast.Name) and \
+                n.func.value.id == ev and n.func.attr in ('pop', 'clear', 'popitem') or \
+                isinstance(n, ast.Delete) and any(isinstance(x, ast.Name) and x.id == ev for x in ast.walk(n)):
+            oj.undecided(f, n, n, f"keys are removed from the entry by `{src(n)[:60]}`")
+            return
+    for n, tg in stores:
+        kc = const_str(tg.slice)
+        if kc is not None:
+            if kc in need:
+                oj.refute(f, n, n, f"`{src(n)[:60]}` then `{src(call)[:40]}` overwrites the entry's `{kc}` after it was computed")
+            continue
+        ks = src(tg.slice)
+        conds = facts.node_conditions(ctx.prog, f, n, ctx.typer, expand=False)
+        if any((match(f"{ks} not in {ev}", a) and pol) or (match(f"{ks} in {ev}", a) and not pol) for a, pol in conds):
+            oj.site(f, n, f"custom attributes are collected only under `{ks} not in {ev}` before {ev}.update(..): id/text/dates/parent/"
+                          f"progress are kept")
+        else:
+            oj.refute(f, n, n, f"`{src(n)[:60]}` is not guarded by `{ks} not in {ev}` and `{src(call)[:40]}` copies it into the entry: "
+                               f"a task attribute named id, text, parent, progress, start_date or end_date replaces the computed "
+                               f"entry field")
 
 
 def merge_defs(ctx, f: Func, e: ast.AST, at) -> ast.AST:
@@ -2840,10 +3093,21 @@ def check_parent(ctx, o, f: Func, st, pv: ast.AST, t: str, w: str):
     s = f.self_name
     conds, value, default = None, None, None
     if isinstance(pv, ast.IfExp):
-        if facts.const_num(pv.orelse) is not None or isinstance(pv.orelse, ast.Constant):
-            conds, value, default = facts.split_conj(pv.test, True), pv.body, pv.orelse
-        elif isinstance(pv.body, ast.Constant):
-            conds, value, default = facts.split_conj(pv.test, False), pv.orelse, pv.body
+        cases = []
+
+        def rec(e, cs):
+            if isinstance(e, ast.IfExp):
+                rec(e.body, cs + facts.split_conj(e.test, True))
+                rec(e.orelse, cs + facts.split_conj(e.test, False))
+            else:
+                cases.append((cs, e))
+        rec(pv, [])
+        consts = [e for _, e in cases if isinstance(e, ast.Constant)]
+        others = [(cs, e) for cs, e in cases if not isinstance(e, ast.Constant)]
+        if len(others) == 1 and consts:
+            conds, value = others[0]
+            # every other case is the default; a default that is not 0 is reported below
+            default = next((e for e in consts if not (e.value == 0 and e.value is not False)), consts[0])
     elif isinstance(pv, ast.BoolOp) and isinstance(pv.op, ast.Or) and len(pv.values) == 2:
         a, default = pv.values
         if isinstance(a, ast.BoolOp) and isinstance(a.op, ast.And):
@@ -2937,6 +3201,11 @@ def check_progress(ctx, o, f: Func, st, pv: ast.AST, at, t: str):
                 flat.append((e, conds))
         rec(deep(ctx, f, val, node), [])
         for e, extra in flat:
+            while True:                       # rounding / float() keep a value inside 0..1 and an excess outside it
+                mw = match("round($x, $n)", e) or match("float($x)", e)
+                if not mw or (('n' in mw) and facts.const_num(mw['n']) is None):
+                    break
+                e = mw['x']
             k = facts.const_num(e)
             if k is not None:
                 if 0 <= k <= 1:
